@@ -2,7 +2,7 @@
 """Generates MANIFEST.json from the table below (kept in one place so it stays valid)."""
 import json, subprocess
 checks = {
- "C01": ("exploration", "Seeded simulation of TransactionSet histories against the real datastore, tree, cache (badger) and schema store on a fake clock; the device is the direct one (proto view) or, in half of the runs, the real gnmiTarget (proto/json/json_ietf) in front of an in-process gNMI client that decodes the wire request; the device state is compared with an executable merge model after every accepted transaction. Sampling, not proof: thousands of distinct histories per minute.", "4 C01"),
+ "C01": ("exploration", "Seeded simulation of TransactionSet histories against the real datastore, tree, cache (badger) and schema store on a fake clock; the device is the direct one (proto view) or, in more than half of the runs, a real target in front of an in-process device that decodes what goes over the wire: the real gnmiTarget (proto/json/json_ietf) or the real ncTarget (candidate+commit or running; XML documents applied under NETCONF merge semantics); the device state is compared with an executable merge model after every accepted transaction. Sampling, not proof: thousands of distinct histories per minute.", "4 C01"),
  "C02": ("exploration", "Same simulated histories; the complete intended store is dumped through the undecorated cache client after every step and compared, entry by entry, with the model's last accepted version of every intent.", "4 C02"),
  "C03": ("exploration", "Histories over a schema exercising every constraint class with dry runs, invalid values (0/8/20 % per draw) and an invalid replace intent; rejected and dry-run calls must cause no device call and leave both stores identical; a dry run followed by the same request for real must send exactly what was reported.", "4 C03"),
  "C04": ("exploration", "Same histories with validator switches drawn per run; the verdict is compared with the harness's own constraint evaluator over the configuration the merge model predicts, and (metamorphic) with the verdict for that configuration flattened into one intent on a fresh empty datastore.", "4 C04"),
@@ -11,7 +11,7 @@ checks = {
  "C08": ("exploration", "C01 histories over the choice profile (top-level, in lists, nested; multi-member cases; prefix-named non-members): per choice instance at most one case on the device and it is the one with the highest-precedence live contribution; the merge-model items about nodes inside a choice member (winning case missing or with a wrong value, e.g. after a takeover by a case of an intent outside the transaction) are judged here as well (choice-aware merge model).", "4 C08"),
  "C09": ("exploration", "Histories with verbatim re-submissions in every input form; the proto, JSON, JSON_IETF and 8 XML renderings of the same tree instance must be empty and both stores unchanged; in part of the runs the device first reports its whole configuration back in device-native formats (gNMI notifications with prefix and relative paths, typed / JSON / JSON_IETF, or a NETCONF get-config reply) through the real converters and Datastore.Sync, so that the running store holds what the device said.", "4 C09"),
  "C07": ("fault_enumeration", "For a generated history and a chosen transaction, every collaborator call (target.Set, cache Read/ReadCh/GetKeys/Modify, schema GetSchema) is numbered in a counting pass; sampled (call, fault kind) pairs incl. torn writes, lost acks, short reads, device reject/unreachable/lost reply and fail-stop crash + restart over the same badger directory are injected one at a time in fresh worlds (at the wire when the device is the real gnmiTarget), the request is retried and the outcome compared with the fault-free reference run; a cancel leg does the same for TransactionCancel (one collaborator call of the rollback fails once, the cancel is repeated).", "4 C07"),
- "C10": ("exploration", "On every Set of generated histories the direct device asks the same tree instance for proto, JSON, JSON_IETF and the 8 XML documents (change and full views); each is decoded by the harness's own schema-driven decoders, applied to a copy of the prior device state under its protocol's semantics and compared; XML well-formedness, namespace, key-order and operation clauses are checked per document. Wire leg: with the real gnmiTarget (proto/json/json_ietf) the decoded SetRequest must be decodable and have the same effect as the proto view of the same tree (shadow device).", "4 C10"),
+ "C10": ("exploration", "On every Set of generated histories the direct device asks the same tree instance for proto, JSON, JSON_IETF and the 8 XML documents (change and full views); each is decoded by the harness's own schema-driven decoders, applied to a copy of the prior device state under its protocol's semantics and compared; XML well-formedness, namespace, key-order and operation clauses are checked per document. Wire leg: with the real gnmiTarget (proto/json/json_ietf) or the real ncTarget (candidate / running) the request that went over the wire must be decodable and have the same effect as the proto view of the same tree (shadow device).", "4 C10"),
  "C11": ("exploration", "C01/C02 histories over the adversarial profile (prefix-related names and key values, separator characters in keys, lists with 2 and 3 keys in non-alphabetical order): every path is followed through request, tree, cache key, device and response and compared structurally by the model oracles; ToPath(ToStrings(p)) and ParsePath(ToXPath(p)) asserted on every path of a run. Claimed for what crosses parties, not for the cross product of pure converters.", "4 C11"),
  "C12": ("exploration", "Single-leaf transactions over one leaf per YANG built-in type x boundary/interior values x input form (typed, string, JSON / JSON_IETF document, JSON / JSON_IETF scalar or array on the leaf's own path); the value at the device, in the intended store and returned by GetData in four encodings must denote the supplied datum (abstract value domain), so must the XML text and JSON documents of the same tree and the real gNMI wire encodings; echo leg: the device reports the value back in a native form (gNMI typed/JSON/JSON_IETF, NETCONF get-config reply) through the real converters and Datastore.Sync, the running store must hold the datum; equal data must not be re-sent. Claimed for the compositions the running system performs.", "4 C12"),
  "C13": ("exploration", "Scripted device notifications (re-sync cycles, on-change updates/deletes, JSON blobs, state leaves) into the real Datastore.Sync with 1/2/16 write workers; every cache write of a sync worker parks in a decorator and the seeded scheduler chooses the completion order; CONFIG/STATE compared with a sequential running-mirror model at quiescence; a quarter of the runs are echo cycles (full re-sync of a device state in device-native gNMI / NETCONF formats through the real converters, prune, same mirror oracle).", "4 C13"),
